@@ -229,6 +229,16 @@ theorem accepts_iff_documented (cls attr : String) (k : Nat) (pos : Bool) (v : P
       subst hpos
       simpa using hp
 
+/-- (added by the audit) how "documented" is to be read in `accepts_iff_documented` and its siblings: `docVec` / `hasShape`
+count as float-compatible every entry that `np.array(·, dtype=float)` converts — in particular `None` (stored as nan,
+which also passes the "no value <= 0" clause) and numeric strings.  The public docstrings speak of numbers only; these
+inputs are the recorded findings `coerced-entry:None` and `coerced-entry:numeric-string`.  So the iff is "accepted ⇔
+documented format OR one of these two coerced entry kinds"; witness that the Lean predicate includes them: -/
+theorem documented_includes_coerced_entries :
+    docVec 3 true (.seq [.num 1, .none, .num 3]) = true ∧ docVec 3 false (.seq [.num 1, .str "2", .num 3]) = true ∧
+    docVec 3 false (.seq [.num 1, .str "abc", .num 3]) = false := by
+  decide
+
 /-- the documented format read for plain numbers: a list/tuple of integers/floats is accepted iff it has
 exactly k entries, all positive where sizes are meant (the statement of this theorem before the grammar
 had bool / None / string entries) -/
